@@ -462,7 +462,7 @@ func c08Auth(c *h.Ctx, dr *c08Drifts, ch *ntlm.ChallengeMessage, cf []byte, user
 		return 0
 	}
 	uni := ch.NegotiateFlags&ntlm.NTLMSSP_NEGOTIATE_UNICODE != 0
-	if err != nil && c08EncLen(dom, uni) <= 0xFFFF && c08EncLen(ws, uni) <= 0xFFFF && c08EncLen(user, uni) <= 0xFFFF {
+	if err != nil && c08EncLen(dom, uni) <= 0xFFFF && c08EncLen(ws, uni) <= 0xFFFF && c08EncLen(user, uni) <= 0xFFFF && 48+len(ch.TargetInfo) <= 0xFFFF {
 		dr.add(c08SiteAuth, "unexpected-error", err.Error(), sample)
 	}
 	c08Emit(c, map[string]interface{}{"op": "authenticate", "cf": c08BytesJSON(cf), "user": c08Ints(user), "dom": c08Ints(dom),
@@ -736,6 +736,31 @@ func c08Record(c *h.Ctx) error {
 	r := rand.New(rand.NewSource(seed*7919 + 8))
 	dr := newC08Drifts(c)
 	built := 0
+	// fixed prelude: the server chooses the size of the NTLMv2 response (it embeds the challenge's TargetInfo, whose own length
+	// field is 16 bits wide): target infos around the size at which the response no longer fits a 16-bit descriptor -- the
+	// message is refused or every descriptor still designates exactly its field (judged by TLC like every other message)
+	for _, size := range []int{60000, 65487, 65488, 65500, 65535} {
+		for _, fl := range []uint32{0x00080201, 0x00080202, 0x00000201} { // extended session security (Unicode / OEM), and without it
+			ch := &ntlm.ChallengeMessage{MessageType: 2, NegotiateFlags: fl}
+			copy(ch.Signature[:], "NTLMSSP\x00")
+			r.Read(ch.ServerChallenge[:])
+			ti := make([]byte, size)
+			for j := range ti {
+				ti[j] = byte('a' + j%26)
+				if j%2 == 1 {
+					ti[j] = 0
+				}
+			}
+			binary.LittleEndian.PutUint16(ti[0:], 3) // MsvAvDnsComputerName
+			binary.LittleEndian.PutUint16(ti[2:], uint16(size-8))
+			copy(ti[size-4:], []byte{0, 0, 0, 0}) // MsvAvEOL
+			ch.TargetInfo = ti
+			cf := make([]byte, 4)
+			binary.LittleEndian.PutUint32(cf, fl)
+			c.Case(fmt.Sprintf("bigti|%08x|%d", fl, size))
+			built += c08Auth(c, dr, ch, cf, []rune("user"), []rune("dom"), []rune("ws"))
+		}
+	}
 	for i := 0; i < n; i++ {
 		switch r.Intn(4) {
 		case 0:
